@@ -196,6 +196,25 @@ CLAIMED = {
        "tier only; the kernels' own diag-vs-full and symmetry statements are the C05 elementwise postconditions. Outputs per input enumerated "
        "(1, 2, 3, (2,1)); batch rank <= 1.",
   technique="contract-based deductive verification: AST-extracted real functions, symbolic slices (CPython slice.indices semantics), elementwise tensor domain, modular callee contracts, z3"),
+ "C16": dict(
+  category="other",
+  text="Proof tier (counted): with an opt-in NaN model (NaN = a distinguished unconstrained real) the real observation_nan_policy._get_observed "
+       "returns a mask of the event shape with observed[e] <=> no batch element is NaN at e (batch ranks 0..2, event ranks 1..2; the reduction over "
+       "the batch is a fresh predicate with instantiated facts and a Skolem witness) and _fill_tensor replaces exactly the NaN entries by the "
+       "finite fill value; _GaussianLikelihoodBase.expected_log_prob / log_marginal under 'mask' return exactly the terms of the entries selected "
+       "by that mask (noise, mean, variance and target all masked alike) and under 'fill' return 0 for every missing entry and the unchanged term "
+       "for every other one (also when an observation equals the fill value); ExactMarginalLogLikelihood.forward under 'mask' evaluates "
+       "log_prob on (mean[obs], cov[obs, obs]) at target[obs] -- the density of the data set with the missing observations deleted -- divides "
+       "by the total number n of targets, and rejects 'fill' with ValueError. Bounded tier (not counted): every NaN pattern on n = 4 (quick) / 5 "
+       "(thorough) single-output exact GPs, batched targets, 3 x 2 multitask interleaved and non-interleaved, both policies in both orders on the "
+       "same model: posterior mean / covariance vs a model trained on the observed subset, n*MLL(mask) = n_obs*MLL(deleted), likelihood terms, finiteness.",
+  design_ref="DESIGN.md section 5, C16",
+  note="'rescaled by the count of observed values' is read as n * MLL(mask) == n_obs * MLL(deleted data) (the code divides by n). NaN poisoning of "
+       "arithmetic is not modelled in the proof tier ('no NaN in any output' is bounded-tier only). The prediction-strategy code (_mean_cache, "
+       "exact_predictive_mean / covar) is covered by the bounded tier only; a known finding (posterior covariance ignores the policy) is listed in "
+       "known_findings.json. Gaussian marginalisation (restriction = sub-mean / sub-covariance) is cited. Masked selections are represented in place "
+       "with an uninterpreted count as their visible extent.",
+  technique="contract-based deductive verification: AST-extracted real functions, elementwise tensor domain with a NaN flag model and predicate-valued reductions, modular callee contracts, z3 + sympy CAS"),
 }
 REASON_NOT_BUILT = "contracts for this property are not built yet in this revision (see DESIGN.md section 9 build order); not claimed until its obligations are discharged by the checker"
 
